@@ -73,7 +73,7 @@ pub fn c13(opts: &Opts) -> Report {
             let special = i % 40 == 19;
             let debug = if special { ((i / 40) / 11) % 2 == 0 } else { ctx.rng.chance(1, 4) && !slow_case }; let quiet = ctx.rng.chance(1, 4) && !special; let validate = ctx.rng.chance(1, 6) && !dash_case && !slow_case && !special;
             let tmode = if dash_case || slow_case { 0 } else if special && tpl.contains('\n') { 6 } else { ctx.rng.below(10) };   // 0-5 arg, 6-7 file, 8 unreadable file, 9 both
-            let imode = if dash_case { 0 } else if slow_case { 4 } else if i % 40 == 15 { ctx.rng.below(10); 7 } else { ctx.rng.below(10) };   // a byte-order mark first: through an input FILE   // 0-3 arg, 4-6 stdin, 7 file, 8 unreadable, 9 both
+            let imode = if dash_case { 0 } else if slow_case { 4 } else if i % 40 == 15 || i % 40 == 35 { ctx.rng.below(10); 7 } else { ctx.rng.below(10) };   // a byte-order mark first: through an input FILE   // 0-3 arg, 4-6 stdin, 7 file, 8 unreadable, 9 both
             let tfile = dir_ref.join(format!("t{}", i)); let ifile = dir_ref.join(format!("i{}", i));
             let tpad_l = ws_tail(&mut ctx.rng); let tpad_r = ws_tail(&mut ctx.rng);
             let mut cmd = Command::new(&bin);
@@ -88,6 +88,7 @@ pub fn c13(opts: &Opts) -> Report {
             let (isrc, iboth, stdin_data): (String, bool, String) = match imode {
                 0..=3 => (format!("a {}", hex(&input)), false, if ctx.rng.chance(1, 2) { "STDIN-DATA\n".to_string() } else { String::new() }),
                 4..=6 => ("n".into(), false, input.clone()),
+                7 if i % 40 == 35 => { ctx.rep.bump("input_file_is_a_pipe"); cmd.arg("-f").arg("/dev/stdin"); (format!("f {}", hex(&input)), false, input.clone()) }
                 7 => { std::fs::write(&ifile, &input).unwrap(); cmd.arg("-f").arg(&ifile); (format!("f {}", hex(&input)), false, String::new()) }
                 8 => { cmd.arg("-f").arg(dir_ref.join("does-not-exist-either")); ("x".into(), false, String::new()) }
                 _ => { std::fs::write(&ifile, &input).unwrap(); cmd.arg("-f").arg(&ifile); (format!("a {}", hex(&input)), true, String::new()) }
